@@ -559,8 +559,8 @@ class SymList:
         lv = leaves_of(tmpl)
         arrs = []
         for k, l in enumerate(lv):
-            if l is None or isinstance(l, str):
-                arrs.append(l)
+            if l is None or isinstance(l, (str, bool, int, float)):
+                arrs.append(l)  # a python constant in the template is shared by every element (e.g. a fixed array dimension)
             else:
                 arrs.append(z3.Const(fresh_name(f"{name}_{k}"), z3.ArraySort(z3.IntSort(), sort_of(l))))
         if length is None:
@@ -580,7 +580,7 @@ class SymList:
 
     def get(self, i):
         i = to_z3(i)
-        leaves = [a if (a is None or isinstance(a, str)) else z3.Select(a, i) for a in self.arrs]
+        leaves = [a if (a is None or isinstance(a, (str, bool, int, float))) else z3.Select(a, i) for a in self.arrs]
         return rebuild_from(self.tmpl, iter(leaves))
 
     def _coerce(self, v):
@@ -592,7 +592,14 @@ class SymList:
     def set(self, i, v):
         lv = self._coerce(v)
         i = to_z3(i)
-        arrs = [a if (a is None or isinstance(a, str)) else z3.Store(a, i, to_z3(l)) for a, l in zip(self.arrs, lv)]
+        arrs = []
+        for a, l in zip(self.arrs, lv):
+            if a is None or isinstance(a, (str, bool, int, float)):
+                if is_sym(l) or l != a:
+                    raise Outside("list element differs from the list's template in a constant position (e.g. an array dimension)")
+                arrs.append(a)
+            else:
+                arrs.append(z3.Store(a, i, to_z3(l)))
         return SymList(self.tmpl, arrs, self.length)
 
     def append(self, v):
